@@ -150,12 +150,13 @@ Fixpoint etextd (d : nat) : expression -> bytes -> Prop :=
 Section SelParse.
 Variable eok : expression -> bool.
 Variable etext : expression -> bytes -> Prop.
+Variable egood : expression -> Prop.
 Variable bs : bytes.
 (* get_pattern on the variant values (RoundTripML.get_pattern_ml at the depth below) *)
 Hypothesis Hpat : forall els V T used c nx p n,
   ml_pattern eok (Pattern els) = true -> ml_value_layout etext els V -> after_value T used c nx -> at_ bs p (V ++ T) ->
   3 * length (V ++ T) + 12 <= n ->
-  exists els', get_pattern bs n p = Ok (Some (Pattern els')) (used + (length V + p)) /\ srel els' els.
+  exists els', get_pattern bs n p = Ok (Some (Pattern els')) (used + (length V + p)) /\ srel egood els' els.
 
 Lemma key_head k t : key_ok k = true -> no_blank_head (render_key k ++ t).
 Proof.
@@ -205,7 +206,7 @@ Qed.
 (* what the parser returns for a variant *)
 Definition vrel (v' v : variant) : Prop :=
   match v', v with
-  | Variant k' (Pattern els') d', Variant k (Pattern els) d => k' = k /\ d' = d /\ srel els' els
+  | Variant k' (Pattern els') d', Variant k (Pattern els) d => k' = k /\ d' = d /\ srel egood els' els
   end.
 
 Lemma variants_layout_head vl vs VS : variants_layout vl vs VS -> vs <> [] -> exists b t, VS = b :: t /\ stop_byte b.
@@ -696,6 +697,21 @@ End SelRender.
 (* ---------------------------------------------------------------------------------------------- *)
 (* 4. All the facts the generic development needs, by induction on the depth                         *)
 
+(* what is known of the expression get_placeable returns (besides that it joins to the printed one): the
+   variant values inside it have non-empty text elements with a line feed only as their last byte, at every
+   nesting level *)
+Fixpoint goodd (d : nat) (e : expression) : Prop :=
+  match d with
+  | 0 => True
+  | S d' =>
+      match e with
+      | Inline (Placeable e1) => goodd d' e1
+      | Inline _ => True
+      | Select _ vs =>
+          Forall (fun v => match v with Variant _ (Pattern els) _ => Forall (text_ok (goodd d')) els end) vs
+      end
+  end.
+
 Definition render_fact (d : nat) : Prop := forall base e cs, eokd d e = true ->
   exists X cs', render_expr base e cs = (X, cs') /\ etextd d e X.
 Definition join_fact (d : nat) : Prop := forall e, eokd d e = true -> join_expr e = e.
@@ -703,7 +719,7 @@ Definition wf_fact (d : nat) : Prop := forall e, eokd d e = true -> wf_expr e = 
 Definition place_fact (d : nat) : Prop := forall bs e X b1 b2 rest p n,
   eokd d e = true -> etextd d e X -> all_blank b1 -> all_blank b2 ->
   at_ bs p (b1 ++ X ++ b2 ++ 125%N :: rest) -> 3 * length (b1 ++ X ++ b2 ++ 125%N :: rest) + 8 <= n ->
-  exists e', get_placeable bs n p = Ok e' (S (length (b1 ++ X ++ b2) + p)) /\ join_expr e' = join_expr e.
+  exists e', get_placeable bs n p = Ok e' (S (length (b1 ++ X ++ b2) + p)) /\ join_expr e' = join_expr e /\ goodd d e'.
 
 (* ---- depth 0 ---- *)
 Lemma render_fact0 base e cs : eok0 e = true -> exists X cs', render_expr base e cs = (X, cs') /\ etext0 e X.
@@ -724,9 +740,9 @@ Proof. destruct e as [sel vs | i]; [discriminate|]. cbn [eok0]. intros Hi. apply
 Lemma place_fact0 bs e X b1 b2 rest p n :
   eok0 e = true -> etext0 e X -> all_blank b1 -> all_blank b2 ->
   at_ bs p (b1 ++ X ++ b2 ++ 125%N :: rest) -> 3 * length (b1 ++ X ++ b2 ++ 125%N :: rest) + 8 <= n ->
-  exists e', get_placeable bs n p = Ok e' (S (length (b1 ++ X ++ b2) + p)) /\ join_expr e' = join_expr e.
+  exists e', get_placeable bs n p = Ok e' (S (length (b1 ++ X ++ b2) + p)) /\ join_expr e' = join_expr e /\ goodd 0 e'.
 Proof.
-  intros _ HX Hb1 Hb2 H Hn. destruct HX as [i Hi]. exists (Inline i). split; [|reflexivity].
+  intros _ HX Hb1 Hb2 H Hn. destruct HX as [i Hi]. exists (Inline i). split; [|split; [reflexivity | exact Logic.I]].
   rewrite (get_placeable_simple bs i b1 b2 rest p n Hi Hb1 Hb2 H ltac:(rewrite !app_length in Hn; lia)).
   f_equal. rewrite !app_length. lia.
 Qed.
@@ -737,8 +753,8 @@ Proof.
   reflexivity.
 Qed.
 
-Lemma vrel_join eok vs' vs : (forall e, eok e = true -> join_expr e = e) ->
-  forallb (variant_ok eok) vs = true -> Forall2 vrel vs' vs -> map join_variant vs' = map join_variant vs.
+Lemma vrel_join eok egood vs' vs : (forall e, eok e = true -> join_expr e = e) ->
+  forallb (variant_ok eok) vs = true -> Forall2 (vrel egood) vs' vs -> map join_variant vs' = map join_variant vs.
 Proof.
   intros Hj Hok H. induction H as [|v' v l' l Hv Hl IH]; [reflexivity|].
   cbn [forallb] in Hok. apply andb_prop in Hok as [Hv1 Hl1]. cbn [map]. rewrite (IH Hl1). f_equal.
@@ -809,12 +825,12 @@ Proof.
     { intros base els cs Hp. destruct (ml_pattern_parts _ els Hp) as (_ & Hs & _).
       apply (render_els_ml_layout (eokd d) (etextd d) R base els false cs Hs). }
     assert (Hwfp : forall els, ml_pattern (eokd d) (Pattern els) = true -> wf_value (Pattern els) = true).
-    { intros els Hp. apply (ml_pattern_wf (eokd d) (etextd d)); assumption. }
+    { intros els Hp. apply (ml_pattern_wf (eokd d) (etextd d) (goodd d)); assumption. }
     assert (Hpat : forall bs els V T used c nx p n,
               ml_pattern (eokd d) (Pattern els) = true -> ml_value_layout (etextd d) els V -> after_value T used c nx ->
               at_ bs p (V ++ T) -> 3 * length (V ++ T) + 12 <= n ->
-              exists els', get_pattern bs n p = Ok (Some (Pattern els')) (used + (length V + p)) /\ srel els' els).
-    { intros bs els V T used c nx p n. apply (get_pattern_ml (eokd d) (etextd d)); assumption. }
+              exists els', get_pattern bs n p = Ok (Some (Pattern els')) (used + (length V + p)) /\ srel (goodd d) els' els).
+    { intros bs els V T used c nx p n. apply (get_pattern_ml (eokd d) (etextd d) (goodd d)); assumption. }
     split; [|split; [|split]].
     + (* render *)
       intros base e cs He. destruct (eokd_S_cases d e He) as [(i & -> & Hi) | [(e1 & -> & He1) | (sel & vs & -> & Hsel & Hcnt & Hvs)]].
@@ -848,7 +864,12 @@ Proof.
       * assert (HX0 : etext0 (Inline i) X).
         { destruct HX as [HX | [(e1 & c1 & c2 & X1 & E & _) | HX]]; [exact HX | | inversion HX].
           injection E as ->. discriminate Hi. }
-        apply (place_fact0 bs (Inline i) X b1 b2 rest p n Hi HX0 Hb1 Hb2 H Hn).
+        destruct (place_fact0 bs (Inline i) X b1 b2 rest p n Hi HX0 Hb1 Hb2 H Hn) as (e' & E & Ej & _).
+        exists e'. split; [exact E | split; [exact Ej|]].
+        assert (Ee : e' = Inline i).
+        { destruct HX0 as [i0 Hi0]. rewrite (get_placeable_simple bs i0 b1 b2 rest p n Hi0 Hb1 Hb2 H ltac:(rewrite !app_length in Hn; lia)) in E.
+          injection E as <- _. reflexivity. }
+        rewrite Ee. cbn [goodd]. destruct i; try exact Logic.I. discriminate Hi.
       * assert (HXn : exists c1 c2 X1, all_blank c1 /\ all_blank c2 /\ etextd d e1 X1 /\ X = 123%N :: c1 ++ X1 ++ c2 ++ [125%N]).
         { destruct HX as [HX | [(e1' & c1 & c2 & X1 & E & Hc1 & Hc2 & HX1 & EX) | HX]]; [inversion HX; subst; discriminate | | inversion HX].
           injection E as <-. exists c1, c2, X1. auto. }
@@ -856,17 +877,20 @@ Proof.
         destruct n as [|[|[|n]]]; try lia.
         assert (H1 : at_ bs (S (length b1 + p)) (c1 ++ X1 ++ c2 ++ 125%N :: b2 ++ 125%N :: rest)).
         { apply at_app in H. cbn [app] in H. apply at_cons in H. rewrite <- !app_assoc in H. cbn [app] in H. exact H. }
-        destruct (P bs e1 X1 c1 c2 (b2 ++ 125%N :: rest) (S (length b1 + p)) n He1 HX1 Hc1 Hc2 H1) as (e1' & E1 & Ej).
+        destruct (P bs e1 X1 c1 c2 (b2 ++ 125%N :: rest) (S (length b1 + p)) n He1 HX1 Hc1 Hc2 H1) as (e1' & E1 & Ej & Hg).
         { repeat (rewrite app_length in Hn || cbn [length] in Hn). repeat (rewrite app_length || cbn [length]). lia. }
-        exists (Inline (Placeable e1')). split.
-        -- apply (get_placeable_nested (eokd d) (etextd d) bs (Hpat bs) e1' c1 X1 c2 b1 b2 rest p n Hb1 Hb2 H E1).
+        exists (Inline (Placeable e1')). split; [|split].
+        -- apply (get_placeable_nested (eokd d) (etextd d) (goodd d) bs (Hpat bs) e1' c1 X1 c2 b1 b2 rest p n Hb1 Hb2 H E1).
         -- change (join_expr (Inline (Placeable e1'))) with (Inline (Placeable (join_expr e1'))). rewrite Ej. reflexivity.
+        -- exact Hg.
       * assert (HXs : select_layout (ml_value_layout (etextd d)) (Select sel vs) X).
         { destruct HX as [HX | [(e1' & c1 & c2 & X1 & E & _) | HX]]; [inversion HX | discriminate E | exact HX]. }
-        destruct (get_placeable_select (eokd d) (etextd d) bs (Hpat bs) sel vs X b1 b2 rest p n Hsel Hcnt Hvs HXs Hb1 Hb2 H Hn)
+        destruct (get_placeable_select (eokd d) (etextd d) (goodd d) bs (Hpat bs) sel vs X b1 b2 rest p n Hsel Hcnt Hvs HXs Hb1 Hb2 H Hn)
           as (vs' & E & Hrels).
-        exists (Select sel vs'). split; [exact E|].
-        rewrite !join_expr_select. f_equal. apply (vrel_join (eokd d) vs' vs J Hvs Hrels).
+        exists (Select sel vs'). split; [exact E | split].
+        -- rewrite !join_expr_select. f_equal. apply (vrel_join (eokd d) (goodd d) vs' vs J Hvs Hrels).
+        -- cbn [goodd]. clear - Hrels. induction Hrels as [|v' v l' l Hv Hl IH]; constructor; [|exact IH].
+           destruct v' as [k' [els'] d'], v as [k [els] d0]. cbn [vrel] in Hv. destruct Hv as (_ & _ & _ & Hok & _). exact Hok.
 Qed.
 
 (* ---------------------------------------------------------------------------------------------- *)
@@ -878,20 +902,20 @@ Definition sel_pattern (d : nat) (p : pattern) : bool := ml_pattern (eokd d) p.
 Definition sel_resource (d : nat) (t : resource) : bool := ml_resource (eokd d) t.
 
 Theorem parse_render_sel_split d cs t : sel_resource d t = true ->
-  exists t', parse (render cs t) = Done (t', []) /\ Forall2 (rel_entry srel) t' t.
+  exists t', parse (render cs t) = Done (t', []) /\ Forall2 (rel_entry (srel (goodd d))) t' t.
 Proof.
-  destruct (facts_all d) as (R & J & W & P). apply (parse_render_ml_split (eokd d) (etextd d)); assumption.
+  destruct (facts_all d) as (R & J & W & P). apply (parse_render_ml_split (eokd d) (etextd d) (goodd d)); assumption.
 Qed.
 
 Theorem parse_render_sel d cs t : sel_resource d t = true ->
   exists t', parse (render cs t) = Done (t', []) /\ map join_entry t' = t.
 Proof.
-  destruct (facts_all d) as (R & J & W & P). apply (parse_render_ml (eokd d) (etextd d)); assumption.
+  destruct (facts_all d) as (R & J & W & P). apply (parse_render_ml (eokd d) (etextd d) (goodd d)); assumption.
 Qed.
 
 Theorem sel_resource_wf d t : sel_resource d t = true -> wf_resource t = true.
 Proof.
-  destruct (facts_all d) as (R & J & W & P). apply (ml_resource_wf (eokd d) (etextd d)); assumption.
+  destruct (facts_all d) as (R & J & W & P). apply (ml_resource_wf (eokd d) (etextd d) (goodd d)); assumption.
 Qed.
 
 (* the classes grow with the depth *)
@@ -936,7 +960,7 @@ Qed.
 (* ---------------------------------------------------------------------------------------------- *)
 (* 6. The one-line fragment of RoundTrip.v is inside (at depth 0)                                     *)
 
-Lemma simple_elements_text_ok els : forall prev, simple_elements els prev = true -> Forall text_ok els.
+Lemma simple_elements_text_ok els : forall prev, simple_elements els prev = true -> Forall (text_ok (fun _ => True)) els.
 Proof.
   induction els as [|el r IH]; intros prev Hs; [constructor|].
   destruct el as [v | [sel vs | i]]; cbn [simple_elements] in Hs; try discriminate Hs.
